@@ -156,7 +156,7 @@ def varying_folder_case(draw):
 def worker(ctx: Ctx):
     paths = usable_shipped()
     q = ctx.tier == "quick"
-    hyp_run(ctx, gen_case_strategy(max_ops=30), run_case, 35 if q else 600, sub=0)
+    hyp_run(ctx, gen_case_strategy(max_ops=30), run_case, 55 if q else 600, sub=0)
     hyp_run(ctx, shipped_case_strategy(paths, max_ops=25), run_case, 10 if q else 200, sub=1)
     # non-constant scenarios: an episode-scheduled folder whose episodes declare different observation spaces; every
     # observation must be in the space the environment declares AT THAT TIME (env.observation_space is read every call)
